@@ -22,7 +22,8 @@ def monitor(ctx, log, case=None, **kw):
     mf = mirror_failures(log)
     if any(h.startswith('x:') for h in hv):
         return mf          # outside the property's quantifier (see DESIGN.md C03)
-    return mf + monitors.P_C03(ctx, log, case=case, **kw)
+    sd = monitors.setdata_delivery(ctx, log) if kw.get('outcome', 'ok') == 'ok' else []
+    return mf + monitors.P_C03(ctx, log, case=case, **kw) + sd
 
 
 def hyp(case, ctx):
@@ -67,12 +68,22 @@ def case_gen(rng, k):
 
 def extra_cases(seed):
     """families added after the main stream was fixed (they are run in addition, so the main stream keeps its scenarios):
-    initial data on undelayed connections, one attribute fed by a persistent and by an event output"""
+    initial data on undelayed connections, one attribute fed by a persistent and by an event output, values written with set_data"""
     import random
     out = []
-    for j in range(16):
+    for j in range(28):
         rng = random.Random(seed * 7919 + j)
-        case = gen.gen_plain_init_case(rng) if j % 2 == 0 else gen.gen_mixed_attr_case(rng)
+        # (j >= 16: agents that write to their async predecessors with set_data, several agent entities per call)
+        case = gen.gen_case(rng, groups=(j % 3 == 0), asyncs=True, clean=1.0, maxn=4) if j >= 16 else gen.gen_plain_init_case(rng) if j % 2 == 0 else gen.gen_mixed_attr_case(rng)
+        if j >= 16:
+            for i, b in enumerate(case['beh']):
+                if b.get('set_data'):
+                    # one call that carries the writes of several agent entities of the simulator, also to the same destination
+                    b['set_data_batched'] = True
+                    for key, items in b['set_data'].items():
+                        for it in [x for x in items if x[3] == 0]:
+                            if not any(y[0] == it[0] and y[1] == it[1] and y[3] == 1 for y in items):
+                                items.append([it[0], it[1], f"set{i}.1@{key.split(',')[0]}", 1])
         out.append((case, dict(lazy=bool(j % 4 < 2), cache=bool(j % 3), strategy=gen.pick_strategy(rng, case), seed=seed * 100 + j)))
     return out
 
